@@ -114,6 +114,23 @@ int main(int argc, char **argv)
 			if (rnd() % 2) for (i = 0; s[i]; i++) if (rnd() % 3 == 0 && s[i] >= 'a' && s[i] <= 'z') s[i] -= 32;
 			if (strstr(s, "..")) continue;
 			ev_match1(s, d);
+			/* near misses: one byte of the part that has to equal the domain (or of the boundary dot) replaced by a
+			   byte that a sloppy comparison might confuse with it (other bit 5 / 6 / 7, neighbours, control bytes) */
+			{
+				int sl = (int) strlen(s), dl2 = (int) strlen(d + (wild ? 2 : 0)), j;
+				for (j = 0; j < 6 && sl > 0; j++) {
+					int pos = sl - 1 - (int) (rnd() % (unsigned) (dl2 + 2 < sl ? dl2 + 2 : sl));
+					unsigned char c = (unsigned char) s[pos], r;
+					static const unsigned char x[] = { 0x20, 0x40, 0x80, 0x10, 0x60, 0xa0, 0x01, 0x02 };
+					r = c ^ x[rnd() % 8];
+					if (rnd() % 4 == 0) r = c & ~0x20;
+					if (rnd() % 4 == 0) r = (unsigned char) (c + (rnd() % 2 ? 1 : 255));
+					if (r == 0 || r == c) continue;
+					s[pos] = (char) r;
+					if (!strstr(s, "..")) ev_match1(s, d);
+					s[pos] = (char) c;
+				}
+			}
 		}
 	}
 	return 0;
